@@ -42,19 +42,29 @@ class C08(Check):
     BUDGET = {'quick': 30, 'thorough': 240}
     RULE = ('case = (2..4 branch pipelines from the typed generator - streaming, filtering, reducing, multiplexed-only stateful operators, nested windows / groups and nested '
             'tee_map in keyed modes -, join in zip/merge/combine_latest, mode: plain observable, one multiplexed key, or keyed under group_by / roll (w != s, w == s) / split / '
-            'time_split where the join slots are reused by successive key lifetimes; input 0..30 ints). Branches are re-run separately in the same mode with a Subject-driven '
+            'time_split where the join slots are reused by successive key lifetimes; input 0..30 ints; every 60th case 140-300 interleaved groups with branches of different rates on 900-1500 items). Branches are re-run separately in the same mode with a Subject-driven '
             'source to get their (event index, value) traces. non-trivial = the branches emit different numbers of items; distinct = hash of the case')
     ASSUMPTIONS = ['branches never contain a streaming scan that mutates and re-emits its accumulator object (the join legitimately holds that object, later mutations show through; snapshots cannot express it)',
                    'each mode is compared with branches run in the SAME mode, so early completion after take/first on plain observables is part of the reference',
                    'branch programs whose standalone run errors (mean(reduce) on an empty key ...) are discarded']
     ANCHORS = ['rxsci/operators/tee_map.py', 'rxsci/mux/muxconnectable.py']
-    REQUIRED_TAGS = ['plain', 'mux', 'group', 'roll', 'roll_eq', 'split', 'zip', 'merge', 'combine_latest', 'branches=2', 'branches=3', 'branches=4', 'nested-tee']
+    REQUIRED_TAGS = ['plain', 'mux', 'group', 'roll', 'roll_eq', 'split', 'zip', 'merge', 'combine_latest', 'branches=2', 'branches=3', 'branches=4', 'nested-tee', 'over-256-keys']
     REQUIRED_OBSERVED = ['tuples_compared', 'branch_traces_recorded', 'lifetimes_checked']
 
     def generate(self, rng, tier, shard, nshards):
-        n = 5000 if tier == 'quick' else 10 ** 7
+        n = 3800 if tier == 'quick' else 10 ** 7
         names = list(CTX)
         for k in range(n):
+            if k % 400 == 200:
+                # scale: 300 interleaved groups (join slots of key indices > 255 / more than 128 keys between two items of a key),
+                # branches that emit at different rates so values wait in the join slots
+                nb = rng.choice([2, 3])
+                branches = [[['filter', 'modne:%d:0' % rng.randint(2, 3)]], [['map', 'add:1']], [['filter', 'gt:%d' % rng.randint(100, 400)]]][:nb]
+                rng.shuffle(branches)
+                yield {'branches': branches, 'join': ['zip', 'combine_latest', 'merge'][(k // 400) % 3], 'ctx': 'group',
+                       'ctx_node': ['group_by', rng.choice(['mod:300', 'mod:140', 'kt:300']), None],
+                       'items': [rng.randint(0, 2000) for _ in range(rng.choice([900, 1500]))]}
+                continue
             ctx = names[k % len(names)]
             plain = ctx == 'plain'
             opts = gen.GenOpts(dual_only=plain, max_depth=1 if plain else 2, allow_empty_sensitive=True, allow_progress=False,
@@ -94,6 +104,8 @@ class C08(Check):
         snap = progs.run_mux([node], items, taps={(0,): (head, tail)})
         hl, odd1 = lifetimes(head)
         tl, odd2 = lifetimes(tail)
+        if len(hl) > 256:
+            out.tags.append('over-256-keys')
         refs = []
         for lt in hl:
             want, why = reference(branches, join, lt.items, 'mux')
